@@ -281,6 +281,22 @@ def verify(contract, repo, domain, contracts, fi=None):
             rep.obligations.append(o)
     if has_canary[0]:
         rep.canary_refuted = canary_hits[0] > 0
+    # cover: a contract that describes a returning function must still have a feasible
+    # normal return (a body that now raises on every input would satisfy every postcondition
+    # vacuously)
+    n_return = sum(1 for res in results if res.outcome == "return")
+    if getattr(contract, "expect_return", True) and results and not rep.error:
+        from .core import ObligationResult
+        label = "cover: a normal return is reachable under the precondition"
+        if n_return > 0:
+            o = ObligationResult(label, "cover", "unsat", "paths")
+        elif rep.undecided_paths:
+            o = None
+        else:
+            o = ObligationResult(label, "cover", "sat", "paths", model={}, formula="no returning path")
+        if o is not None:
+            o.exact = True
+            rep.obligations.append(o)
     rep.time = time.time() - t0
     return rep
 
